@@ -38,7 +38,7 @@ def configure(tier, seed):
             else:
                 times40.append((h, m, s))
     CFG.update(tier=tier, years=years, times40=times40,
-               amounts=['0.5', '1', '1.5', '2', '10', '100', '.5', '01', '5000', '2.50'],
+               amounts=['0', '0.5', '1', '1.5', '2', '10', '100', '.5', '01', '5000', '2.50'],
                from_years=[1, 1900, 1999, 2000, 2020, 9999])
     return {'shard_depth': 2, 'progress': True,
             'bounds': {'years': len(years), 'months': 12, 'days': '01-31', 'weeks': '01-53', 'times_alone': 'all 86400+1440+24',
@@ -127,6 +127,9 @@ def body(ch):
                             'weekend', 'open_month', 'week_of_month', 'week_of_month_day', 'time', 'part_of_day',
                             'duration', 'present', 'date+time', 'open_date+time', 'weekday+time', 'date+part_of_day',
                             'triple', 'from_date', 'from_date_time', 'from_time'))
+    if form in ('date_open_year', 'weekday', 'season', 'open_month', 'week_of_month', 'week_of_month_day', 'part_of_day',
+                'duration', 'present'):
+        ch.shard()      # small forms: the whole sub-tree is one sequential history on one warm process
     if form == 'date':
         y = ch.pick('year', CFG['years'])
         ch.shard()
@@ -140,8 +143,10 @@ def body(ch):
         s = 'XXXX-%02d-%02d' % (mo, d)
         check(ch, form, s, s)
     elif form == 'weekday':
-        s = 'XXXX-WXX-%d' % ch.pick('weekday', range(1, 8))
-        check(ch, form, s, s)
+        # the datatype's pattern accepts any digit; 0, 8 and 9 are no weekdays and get their own finding class
+        wd = ch.pick('weekday', range(0, 10))
+        s = 'XXXX-WXX-%d' % wd
+        check(ch, form if 1 <= wd <= 7 else 'weekday-digit-%d' % wd, s, s)
     elif form == 'year':
         s = '%04d' % ch.pick('year', CFG['years'])
         check(ch, form, s, s)
